@@ -354,7 +354,7 @@ SOp(w, ev) ==
                        \/ Has(ev, "ress_w") /\ \E i \in 2..Len(ev.ress_w) :
                              ev.ress_w[i] # (IF exp = Absent \/ ev.val < 0 THEN exp ELSE <<exp[1], ev.val>>)
       \* the lending join's lookup by entity is also part of C06, restricted lookups of C13
-      props == {prop} \cup (IF ev.path \in {"lend_get", "lend2_get", "lend_get_mut"} THEN {"C06"} ELSE {})
+      props == {prop} \cup (IF ev.path \in {"lend_get", "lend2_get", "lend_get_mut", "lentry_get", "lmaybe_get"} THEN {"C06"} ELSE {})
                       \cup (IF ev.path \in {"r_get_other", "rl_get_other", "rm_get_other", "rm_get_other_mut"} THEN {"C13"} ELSE {})
       mk(w2, exp) == [w |-> w2, f |-> IF bad(exp) THEN {F(p, "storage op result", <<ev.cls, ev.path, s, h, exp>>) : p \in props} ELSE {}]
       viaEntry == ev.path \in {"entry_replace", "entry_insert"}
@@ -479,7 +479,11 @@ WOp(w, ev) ==
             THEN LET occ == {h[1] : h \in SeqToSet(mem)}
                      bad == \/ \E h \in SeqToSet(mem) : h[1] >= Len(ev.vals) \/ ev.vals[h[1] + 1] # w.comp[s][h]
                             \/ \E i \in 1..Len(ev.vals) : (i - 1) \notin occ /\ ev.vals[i] # <<0, 0>>
-                 IN [w |-> w, f |-> flag(bad, "default-filled slice", mem)]
+                     \* a slot outside the membership that still shows a value the library has destroyed / handed back
+                     ghosts == {ev.vals[i] : i \in {j \in 1..Len(ev.vals) : (j - 1) \notin occ /\ ev.vals[j] # <<0, 0>>}}
+                     gone == {g \in ghosts : g[1] \in DOMAIN w.led /\ w.led[g[1]] # "held"}
+                 IN [w |-> w, f |-> flag(bad, "default-filled slice", mem)
+                                    \cup (IF gone # {} THEN {F("C08", "a destroyed value is still visible in the slot view of the storage", <<s, gone>>)} ELSE {})]
             ELSE LET want == [i \in 1..Len(mem) |-> w.comp[s][mem[i]]]
                      bad == Len(ev.vals) # Len(want)
                             \/ \E v \in SeqToSet(want) \cup SeqToSet(ev.vals) :
@@ -522,7 +526,8 @@ DropWorld(w, ev) ==
       faulted == w.fault \/ (Has(ev, "tfault") /\ ev.tfault)
       P == IF faulted THEN "C19" ELSE "C08"
   IN [w |-> w,
-      f |-> (IF L.anomalies # <<>> THEN {F(P, "double drop / drop of unknown value", L.anomalies)} ELSE {})
+      \* (destroyed twice: "exactly once" is broken whatever happened before)
+      f |-> (IF L.anomalies # <<>> THEN {F(P, "double drop / drop of unknown value", L.anomalies), F("C08", "double drop / drop of unknown value", L.anomalies)} ELSE {})
        \cup (IF faulted THEN {}   \* once a destructor has panicked leaks are allowed and L0's ledger is only a lower bound
              ELSE (IF SeqToSet(L.destroyed) # des THEN {F("C08", "destroyed set differs (extra, missing)", <<(SeqToSet(L.destroyed) \ des), (des \ SeqToSet(L.destroyed))>>)} ELSE {})
              \cup (IF SeqToSet(L.returned) # ret THEN {F("C08", "returned set differs (extra, missing)", <<(SeqToSet(L.returned) \ ret), (ret \ SeqToSet(L.returned))>>)} ELSE {})
@@ -569,7 +574,7 @@ Fault(w, ev) ==
                       !.inm = 0],
       f |-> {F("C19", "a lookup returns a value that was already destroyed / handed back (storage, handle, value)",
                <<p[1], o.hs[p[2]], o.st[p[1]].get[p[2]]>>) : p \in exposed}
-       \cup (IF L.anomalies # <<>> THEN {F("C19", "a value was destroyed twice", L.anomalies)} ELSE {})
+       \cup (IF L.anomalies # <<>> THEN {F("C19", "a value was destroyed twice", L.anomalies), F("C08", "a value was destroyed twice", L.anomalies)} ELSE {})
        \cup {F("C19", "a dead entity is alive again after the fault", h) : h \in zombies}]
 
 \* a panic escaping library code where none is allowed
